@@ -1,6 +1,8 @@
 //! vmc — the one binary behind `./check Cxx quick|thorough` and `./check Cxx --replay <file>`.
 
+mod airx;
 mod common;
+mod refglue;
 mod c01;
 mod c02;
 mod c03;
